@@ -9,7 +9,10 @@
 From Xdis Require Import Base.Prelude Base.Result Base.OpTable Gen.Small.
 
 Definition py36 (T : optable) : bool := tuple_geb (t_version T) [3; 6]%Z.
-Definition has_arg (T : optable) (op : Z) : bool := (t_have_argument T <=? op)%Z.
+(* cross_dis.op_has_argument: from 3.13 membership in the table's hasarg (dis does the same: WITH_EXCEPT_START is >= HAVE_ARGUMENT
+   but takes no operand), before that the HAVE_ARGUMENT threshold *)
+Definition has_arg (T : optable) (op : Z) : bool :=
+  if tuple_geb (t_version T) [3; 13]%Z then zmem op (t_hasarg T) else (t_have_argument T <=? op)%Z.
 (* instruction_size *)
 Definition instruction_size (T : optable) (op : Z) : Z :=
   if (op <? t_have_argument T)%Z then (if py36 T then 2 else 1)%Z else (if py36 T then 2 else 3)%Z.
